@@ -166,10 +166,10 @@ func jsonCorpus() []*jnode {
 	}
 	arr := func(e ...*jnode) *jnode { return &jnode{kind: 'A', elems: e} }
 	return []*jnode{
-		obj("a", arr()),                 // C07/empty-array
-		obj("a", a(goStr("[{"))),        // C07/bracket-in-string
-		obj(),                           // C07/empty-top-object
-		obj("a", a(goStr("x},{y"))),     // C07/bracket-in-string (separator pattern)
+		obj("a", arr()),             // C07/empty-array
+		obj("a", a(goStr("[{"))),    // C07/bracket-in-string
+		obj(),                       // C07/empty-top-object
+		obj("a", a(goStr("x},{y"))), // C07/bracket-in-string (separator pattern)
 		obj("data", obj("header", obj("protocolId", a(goStr("ee1.0"))), "payload", obj("datagram", arr(obj("n", a("1")), obj())))),
 		obj("a", arr(arr(obj("b", a("1"))), arr(a("2"), arr(a("3"))))),
 	}
